@@ -56,11 +56,11 @@ Definition memo_verdict_after (kf : tlsx -> N) (h : list hreq) (r : hreq) : resu
 (* ---- correspondence: a request observed on a daemon with history [hc_hist] *)
 Record hcase := HC { hc_hist : list hreq; hc_r : hreq;
                      hc_adm : N; hc_user : N; hc_lvl : N; hc_code : N; hc_iat : Z }.
-(* issue instants that are "the clock at the request" are not compared (the case's clock is a reading before) *)
+(* an issue instant that is "the clock at the request" may be the case's reading (taken just before) or the next second *)
 Definition hist_bad (c : hcase) : bool :=
   negb match verdict_after (hc_hist c) (hc_r c) with
        | Admit u l iat => (hc_adm c =? 1) && (u =? hc_user c) && (l =? hc_lvl c) &&
-                          ((iat =? h_now (hc_r c))%Z || (iat =? hc_iat c)%Z)
+                          (if (iat =? h_now (hc_r c))%Z then (hc_iat c =? iat)%Z || (hc_iat c =? iat + 1)%Z else (iat =? hc_iat c)%Z)
        | Refuse code => (hc_adm c =? 0) && (code =? hc_code c)
        end.
 (* the conclusion of c06_gate_sound evaluated on the observed admission *)
